@@ -13,7 +13,7 @@ func init() {
 	addStages("C08", "exploration", []string{
 		"rsmcheck/twins covers restart from the own snapshot and installation of a file / streamed snapshot without a network; log compaction by the node and lagging follower repair are left to the cluster engine",
 	}, Stage{Engine: "rsmcheck", Mode: "twins", BatchesQ: 16, BatchesT: 64, Par: 16, TimeoutQ: 600, TimeoutT: 3600})
-	addStages("C16", "exploration", []string{
+	addStages("C16", "fault_enumeration", []string{
 		"rsmcheck/sscrash enumerates crash points of the snapshotter / SSEnv / chunk receiver sequences below the NodeHost; import and NodeHost restart are left to the cluster engine",
 	}, Stage{Engine: "rsmcheck", Mode: "sscrash", BatchesQ: 16, BatchesT: 32, Par: 16, TimeoutQ: 600, TimeoutT: 3600})
 }
